@@ -138,14 +138,15 @@ DecTexts(ty, ctx) == (IF ty = "Ints" THEN IntsDec(ctx)
                       ELSE DecProd(Catalogue[ty], 1, ctx, 1, "r"))
                      \cup Shaped(ty, ctx)
 \* string map target: arbitrary keys
-MapTexts(ctx) == {<<Pair(k, v)>> : k \in WStr(ctx, 1) \ {<<>>}, v \in WStr(ctx, 1)}
+\* (the empty list of pairs: an empty body; in a request, a target without `?` -- read from a request object that served another request before)
+MapTexts(ctx) == {<<>>} \cup {<<Pair(k, v)>> : k \in WStr(ctx, 1) \ {<<>>}, v \in WStr(ctx, 1)}
                  \cup {<<Pair(<<k1>>, v1), Pair(<<k2>>, v2)>> :
                           k1 \in {t \in WTok(ctx) : t.c \in MapCls /\ t.e # "L"}, k2 \in {t \in WTok(ctx) : t.c \in MapCls /\ t.e # "U"},
                           v1 \in {<<>>, <<[c |-> "pct", e |-> "U", s |-> ""]>>}, v2 \in {<<>>, <<[c |-> "u4", e |-> "L", s |-> ""]>>}}
 \* ------------------------------------------------------------------ query iterator
 ITok == {t \in WTok("query") : t.c \in IterCls /\ t.e # "L"}
 ITok3 == {t \in ITok : t.c \in {"al", "amp", "eq", "u3"}}
-IterTexts(u_) == {<<Pair(k, v)>> : k \in WStr("query", 1) \ {<<>>}, v \in WStr("query", IterLen)}
+IterTexts(u_) == {<<>>} \cup {<<Pair(k, v)>> : k \in WStr("query", 1) \ {<<>>}, v \in WStr("query", IterLen)}
              \cup {<<Pair(<<k1>>, v1), Pair(<<k2>>, v2)>> : k1 \in ITok, k2 \in ITok,
                                                             v1 \in {<<>>} \cup {<<t>> : t \in ITok}, v2 \in {<<>>} \cup {<<t>> : t \in ITok}}
              \cup {<<Pair(<<k1>>, v1), Pair(<<k2>>, v2), Pair(<<k3>>, v3)>> : k1 \in ITok3, k2 \in ITok3, k3 \in ITok3,
